@@ -78,7 +78,7 @@ PROPS = {
              machine_ops=["flip", "swap", "swapadj", "fromcof"],
              rule="for every n = 1..14 and every index (pair) one structured or random table, copying and in-place forms; "
              "thorough: every table of n <= 4"),
-    "C04": P(hunt=True, strict_ops=["canon"], post_filter=c04_library_order, mc=[{"module": "MC_Canon.tla", "cfg": "MC_Canon_q.cfg", "only": "quick"},
+    "C04": P(hunt=True, strict_ops=["canon", "canon_inv"], post_filter=c04_library_order, mc=[{"module": "MC_Canon.tla", "cfg": "MC_Canon_q.cfg", "only": "quick"},
                             {"module": "MC_Canon.tla", "cfg": "MC_Canon_t.cfg", "tier": "thorough", "workers": 16}],
              rule="canonization calls with the walk hook; exact orbit minimum by enumeration in the specification",
              chunk_weight=15000),
@@ -112,7 +112,7 @@ PROPS = {
              count_all=True),
     "C11": P(hunt=True, strict_ops=CTORS, mc=KMC(["ctors"]), machine_ops=["zero", "one", "parity", "majority", "nth_var", "threshold", "equals"], rule="all named constructors, n = 0..14, all i < n, k in 0..n+2 and 63, 64, 65, 2^32, usize::MAX, "
              "all count masks for n <= 5 and structured/random 64-bit masks above"),
-    "C18": P(["optimize"],
+    "C18": P(["optimize", "optimize_var"],
              mc=[{"module": "MC_Optim.tla", "cfg": "MC_Optim_n1.cfg"}, {"module": "MC_Optim.tla", "cfg": "MC_Optim_n2.cfg"},
                  {"module": "MC_Optim.tla", "cfg": "MC_Optim_n2x2.cfg", "tier": "thorough", "workers": 16}],
              rule="optimize_sop_mip / optimize_sopes_mip / optimize_esop_mip on all lists of 1..2 functions for n <= 2 and all single "
